@@ -1,7 +1,1661 @@
-//! C09 harness (stub until built)
+//! C09 harness: build `ast::Expression` trees directly, print them with the real formatter, read the
+//! text back with the real preprocessor + parser, strip locations and compare.
+//!
+//! request : `C09.rt \t <ctx> \t <tree>`          ctx = ret | stmt | init | arg | idx
+//!           `C09.lit \t <literal>`               literal round trip inside `return <lit>;`
+//! observation : `<printed expression text> ==> <re-read tree | ERR:stage>`
+//! oracle : re-read tree == original tree (after resolving type-name ambiguity with the names the original
+//!          tree uses as types) and the second print equals the first.
 use crate::util::*;
+use rssl_ast as ast;
+use rssl_text::Located;
 
-pub fn run(_args: &Args, _out: &mut Out) {
-    eprintln!("C09: harness not built yet");
-    std::process::exit(2);
+// ------------------------------------------------------------------------------------------ s-expressions
+#[derive(Clone, Debug, PartialEq)]
+pub enum SExp {
+    Atom(String),
+    List(Vec<SExp>),
+}
+
+impl SExp {
+    fn atom(s: &str) -> SExp {
+        SExp::Atom(s.to_string())
+    }
+    fn list(head: &str, mut rest: Vec<SExp>) -> SExp {
+        let mut v = vec![SExp::atom(head)];
+        v.append(&mut rest);
+        SExp::List(v)
+    }
+    pub fn show(&self) -> String {
+        match self {
+            SExp::Atom(a) => a.clone(),
+            SExp::List(l) => {
+                let parts: Vec<String> = l.iter().map(|x| x.show()).collect();
+                format!("({})", parts.join(" "))
+            }
+        }
+    }
+    fn head(&self) -> Option<&str> {
+        match self {
+            SExp::List(l) => match l.first() {
+                Some(SExp::Atom(a)) => Some(a.as_str()),
+                _ => None,
+            },
+            _ => None,
+        }
+    }
+    fn args(&self) -> &[SExp] {
+        match self {
+            SExp::List(l) if !l.is_empty() => &l[1..],
+            _ => &[],
+        }
+    }
+    fn as_atom(&self) -> Option<&str> {
+        match self {
+            SExp::Atom(a) => Some(a.as_str()),
+            _ => None,
+        }
+    }
+    fn size(&self) -> usize {
+        match self {
+            SExp::Atom(_) => 0,
+            SExp::List(l) => 1 + l.iter().map(|x| x.size()).sum::<usize>(),
+        }
+    }
+    fn depth(&self) -> usize {
+        match self {
+            SExp::Atom(_) => 0,
+            SExp::List(l) => 1 + l.iter().map(|x| x.depth()).max().unwrap_or(0),
+        }
+    }
+}
+
+pub fn parse_sexp(s: &str) -> Option<SExp> {
+    let b: Vec<char> = s.chars().collect();
+    let mut i = 0;
+    let r = parse_sexp_at(&b, &mut i)?;
+    while i < b.len() && b[i] == ' ' {
+        i += 1;
+    }
+    if i == b.len() { Some(r) } else { None }
+}
+
+fn parse_sexp_at(b: &[char], i: &mut usize) -> Option<SExp> {
+    while *i < b.len() && b[*i] == ' ' {
+        *i += 1;
+    }
+    if *i >= b.len() {
+        return None;
+    }
+    if b[*i] == '(' {
+        *i += 1;
+        let mut items = Vec::new();
+        loop {
+            while *i < b.len() && b[*i] == ' ' {
+                *i += 1;
+            }
+            if *i >= b.len() {
+                return None;
+            }
+            if b[*i] == ')' {
+                *i += 1;
+                return Some(SExp::List(items));
+            }
+            items.push(parse_sexp_at(b, i)?);
+        }
+    } else if b[*i] == ')' {
+        None
+    } else {
+        let st = *i;
+        while *i < b.len() && b[*i] != ' ' && b[*i] != '(' && b[*i] != ')' {
+            *i += 1;
+        }
+        Some(SExp::Atom(b[st..*i].iter().collect()))
+    }
+}
+
+// ------------------------------------------------------------------------------------------ tables
+const UNOPS: [(&str, ast::UnaryOp); 10] = [
+    ("PrefixIncrement", ast::UnaryOp::PrefixIncrement),
+    ("PrefixDecrement", ast::UnaryOp::PrefixDecrement),
+    ("PostfixIncrement", ast::UnaryOp::PostfixIncrement),
+    ("PostfixDecrement", ast::UnaryOp::PostfixDecrement),
+    ("Plus", ast::UnaryOp::Plus),
+    ("Minus", ast::UnaryOp::Minus),
+    ("LogicalNot", ast::UnaryOp::LogicalNot),
+    ("BitwiseNot", ast::UnaryOp::BitwiseNot),
+    ("Dereference", ast::UnaryOp::Dereference),
+    ("AddressOf", ast::UnaryOp::AddressOf),
+];
+
+const BINOPS: [(&str, ast::BinOp); 30] = [
+    ("Add", ast::BinOp::Add),
+    ("Subtract", ast::BinOp::Subtract),
+    ("Multiply", ast::BinOp::Multiply),
+    ("Divide", ast::BinOp::Divide),
+    ("Modulus", ast::BinOp::Modulus),
+    ("LeftShift", ast::BinOp::LeftShift),
+    ("RightShift", ast::BinOp::RightShift),
+    ("BitwiseAnd", ast::BinOp::BitwiseAnd),
+    ("BitwiseOr", ast::BinOp::BitwiseOr),
+    ("BitwiseXor", ast::BinOp::BitwiseXor),
+    ("BooleanAnd", ast::BinOp::BooleanAnd),
+    ("BooleanOr", ast::BinOp::BooleanOr),
+    ("LessThan", ast::BinOp::LessThan),
+    ("LessEqual", ast::BinOp::LessEqual),
+    ("GreaterThan", ast::BinOp::GreaterThan),
+    ("GreaterEqual", ast::BinOp::GreaterEqual),
+    ("Equality", ast::BinOp::Equality),
+    ("Inequality", ast::BinOp::Inequality),
+    ("Assignment", ast::BinOp::Assignment),
+    ("SumAssignment", ast::BinOp::SumAssignment),
+    ("DifferenceAssignment", ast::BinOp::DifferenceAssignment),
+    ("ProductAssignment", ast::BinOp::ProductAssignment),
+    ("QuotientAssignment", ast::BinOp::QuotientAssignment),
+    ("RemainderAssignment", ast::BinOp::RemainderAssignment),
+    ("LeftShiftAssignment", ast::BinOp::LeftShiftAssignment),
+    ("RightShiftAssignment", ast::BinOp::RightShiftAssignment),
+    ("BitwiseAndAssignment", ast::BinOp::BitwiseAndAssignment),
+    ("BitwiseOrAssignment", ast::BinOp::BitwiseOrAssignment),
+    ("BitwiseXorAssignment", ast::BinOp::BitwiseXorAssignment),
+    ("Sequence", ast::BinOp::Sequence),
+];
+
+const MODIFIERS: [(&str, ast::TypeModifier); 4] = [
+    ("const", ast::TypeModifier::Const),
+    ("volatile", ast::TypeModifier::Volatile),
+    ("row_major", ast::TypeModifier::RowMajor),
+    ("column_major", ast::TypeModifier::ColumnMajor),
+];
+
+fn unop_name(op: &ast::UnaryOp) -> &'static str {
+    UNOPS.iter().find(|(_, o)| o == op).unwrap().0
+}
+fn binop_name(op: &ast::BinOp) -> &'static str {
+    BINOPS.iter().find(|(_, o)| o == op).unwrap().0
+}
+
+// ------------------------------------------------------------------------------------------ tree <-> s-expression
+fn loc<T>(x: T) -> Located<T> {
+    Located::none(x)
+}
+fn bloc(x: ast::Expression) -> Box<Located<ast::Expression>> {
+    Box::new(Located::none(x))
+}
+
+fn de_scoped(args: &[SExp]) -> Option<ast::ScopedIdentifier> {
+    let mut base = ast::ScopedIdentifierBase::Relative;
+    let mut names = Vec::new();
+    for (i, a) in args.iter().enumerate() {
+        let a = a.as_atom()?;
+        if i == 0 && a == "::" {
+            base = ast::ScopedIdentifierBase::Absolute;
+        } else {
+            names.push(loc(a.to_string()));
+        }
+    }
+    if names.is_empty() {
+        return None;
+    }
+    Some(ast::ScopedIdentifier {
+        base,
+        identifiers: names,
+    })
+}
+
+fn ser_scoped(id: &ast::ScopedIdentifier) -> Vec<SExp> {
+    let mut v = Vec::new();
+    if id.base == ast::ScopedIdentifierBase::Absolute {
+        v.push(SExp::atom("::"));
+    }
+    for n in &id.identifiers {
+        v.push(SExp::atom(&n.node));
+    }
+    v
+}
+
+fn de_lit(args: &[SExp]) -> Option<ast::Literal> {
+    let k = args.first()?.as_atom()?;
+    let v = args.get(1)?.as_atom()?;
+    let bits64 = |v: &str| u64::from_str_radix(v.strip_prefix("0x")?, 16).ok();
+    let bits32 = |v: &str| u32::from_str_radix(v.strip_prefix("0x")?, 16).ok();
+    Some(match k {
+        "b" => ast::Literal::Bool(v == "1"),
+        "i" => ast::Literal::IntUntyped(v.parse().ok()?),
+        "u" => ast::Literal::IntUnsigned32(v.parse().ok()?),
+        "ul" => ast::Literal::IntUnsigned64(v.parse().ok()?),
+        "l" => ast::Literal::IntSigned64(v.parse().ok()?),
+        "f" => ast::Literal::FloatUntyped(f64::from_bits(bits64(v)?)),
+        "h" => ast::Literal::Float16(f32::from_bits(bits32(v)?)),
+        "f32" => ast::Literal::Float32(f32::from_bits(bits32(v)?)),
+        "f64" => ast::Literal::Float64(f64::from_bits(bits64(v)?)),
+        "s" => ast::Literal::String(String::from_utf8(unhex(v)?).ok()?),
+        _ => return None,
+    })
+}
+
+fn ser_lit(l: &ast::Literal) -> SExp {
+    let (k, v) = match l {
+        ast::Literal::Bool(b) => ("b", if *b { "1".to_string() } else { "0".to_string() }),
+        ast::Literal::IntUntyped(v) => ("i", v.to_string()),
+        ast::Literal::IntUnsigned32(v) => ("u", v.to_string()),
+        ast::Literal::IntUnsigned64(v) => ("ul", v.to_string()),
+        ast::Literal::IntSigned64(v) => ("l", v.to_string()),
+        ast::Literal::FloatUntyped(v) => ("f", format!("0x{:016x}", v.to_bits())),
+        ast::Literal::Float16(v) => ("h", format!("0x{:08x}", v.to_bits())),
+        ast::Literal::Float32(v) => ("f32", format!("0x{:08x}", v.to_bits())),
+        ast::Literal::Float64(v) => ("f64", format!("0x{:016x}", v.to_bits())),
+        ast::Literal::String(s) => ("s", hex(s.as_bytes())),
+    };
+    SExp::list("lit", vec![SExp::atom(k), SExp::Atom(v)])
+}
+
+/// `(ty <scoped id atoms...>)`, `(tyt (n <scoped>) <eot>...)`, wrapped by `(const T)`, `(ptr T)`, `(ref T)`, `(arr T [e])`
+fn de_type(s: &SExp) -> Option<ast::TypeId> {
+    match s.head()? {
+        "ty" => Some(ast::TypeId {
+            base: ast::Type {
+                layout: ast::TypeLayout(de_scoped(s.args())?, Vec::new().into_boxed_slice()),
+                modifiers: ast::TypeModifierSet {
+                    modifiers: Vec::new(),
+                },
+                location: rssl_text::SourceLocation::UNKNOWN,
+            },
+            abstract_declarator: ast::Declarator::Empty,
+        }),
+        "tyt" => {
+            let a = s.args();
+            let name = de_scoped(a.first()?.args())?;
+            if a.first()?.head()? != "n" {
+                return None;
+            }
+            let mut targs = Vec::new();
+            for x in &a[1..] {
+                targs.push(de_eot(x)?);
+            }
+            Some(ast::TypeId {
+                base: ast::Type {
+                    layout: ast::TypeLayout(name, targs.into_boxed_slice()),
+                    modifiers: ast::TypeModifierSet {
+                        modifiers: Vec::new(),
+                    },
+                    location: rssl_text::SourceLocation::UNKNOWN,
+                },
+                abstract_declarator: ast::Declarator::Empty,
+            })
+        }
+        "ptr" => {
+            let mut t = de_type(s.args().first()?)?;
+            t.abstract_declarator = t.abstract_declarator.insert_base(|d| {
+                ast::Declarator::Pointer(ast::PointerDeclarator {
+                    attributes: Vec::new(),
+                    qualifiers: ast::TypeModifierSet {
+                        modifiers: Vec::new(),
+                    },
+                    inner: Box::new(d),
+                })
+            });
+            Some(t)
+        }
+        "ref" => {
+            let mut t = de_type(s.args().first()?)?;
+            t.abstract_declarator = t.abstract_declarator.insert_base(|d| {
+                ast::Declarator::Reference(ast::ReferenceDeclarator {
+                    attributes: Vec::new(),
+                    inner: Box::new(d),
+                })
+            });
+            Some(t)
+        }
+        "arr" => {
+            let mut t = de_type(s.args().first()?)?;
+            let size = match s.args().get(1) {
+                Some(e) => Some(Box::new(loc(de_expr(e)?))),
+                None => None,
+            };
+            t.abstract_declarator = t.abstract_declarator.insert_base(|d| {
+                ast::Declarator::Array(ast::ArrayDeclarator {
+                    inner: Box::new(d),
+                    array_size: size,
+                    attributes: Vec::new(),
+                })
+            });
+            Some(t)
+        }
+        m => {
+            let md = MODIFIERS.iter().find(|(n, _)| *n == m)?.1;
+            let mut t = de_type(s.args().first()?)?;
+            t.base.modifiers.modifiers.insert(0, loc(md));
+            Some(t)
+        }
+    }
+}
+
+fn ser_type(t: &ast::TypeId) -> SExp {
+    let base = if t.base.layout.1.is_empty() {
+        SExp::list("ty", ser_scoped(&t.base.layout.0))
+    } else {
+        let mut v = vec![SExp::list("n", ser_scoped(&t.base.layout.0))];
+        for a in t.base.layout.1.iter() {
+            v.push(ser_eot(a));
+        }
+        SExp::list("tyt", v)
+    };
+    let mut s = base;
+    for m in t.base.modifiers.modifiers.iter().rev() {
+        let name = MODIFIERS
+            .iter()
+            .find(|(_, md)| *md == m.node)
+            .map(|(n, _)| *n)
+            .unwrap_or("modifier?");
+        s = SExp::list(name, vec![s]);
+    }
+    // modifiers are innermost in de_type only when written innermost; canonical form: declarators outside
+    ser_declarator_outer(&t.abstract_declarator, s)
+}
+
+fn ser_declarator_outer(d: &ast::Declarator, base: SExp) -> SExp {
+    // de_type builds `(ptr (arr T))` by inserting at the base: the *outer* s-expression is inserted last,
+    // i.e. is the innermost declarator of the chain. Collect the chain and wrap from the chain's outside in.
+    fn chain<'a>(d: &'a ast::Declarator, out: &mut Vec<&'a ast::Declarator>) {
+        match d {
+            ast::Declarator::Empty | ast::Declarator::Identifier(..) => out.push(d),
+            ast::Declarator::Pointer(p) => {
+                out.push(d);
+                chain(&p.inner, out)
+            }
+            ast::Declarator::Reference(r) => {
+                out.push(d);
+                chain(&r.inner, out)
+            }
+            ast::Declarator::Array(a) => {
+                out.push(d);
+                chain(&a.inner, out)
+            }
+        }
+    }
+    let mut c = Vec::new();
+    chain(d, &mut c);
+    let mut s = base;
+    for d in c {
+        s = match d {
+            ast::Declarator::Empty => s,
+            ast::Declarator::Identifier(id, _) => {
+                let mut v = ser_scoped(id);
+                v.push(s);
+                SExp::list("named", v)
+            }
+            ast::Declarator::Pointer(p) => {
+                let tag = if p.attributes.is_empty() && p.qualifiers.modifiers.is_empty() {
+                    "ptr"
+                } else {
+                    "ptr+"
+                };
+                SExp::list(tag, vec![s])
+            }
+            ast::Declarator::Reference(r) => {
+                SExp::list(if r.attributes.is_empty() { "ref" } else { "ref+" }, vec![s])
+            }
+            ast::Declarator::Array(a) => {
+                let mut v = vec![s];
+                if let Some(e) = &a.array_size {
+                    v.push(ser_expr(&e.node));
+                }
+                SExp::list(if a.attributes.is_empty() { "arr" } else { "arr+" }, v)
+            }
+        };
+    }
+    s
+}
+
+fn de_eot(s: &SExp) -> Option<ast::ExpressionOrType> {
+    let a = s.args();
+    Some(match s.head()? {
+        "E" => ast::ExpressionOrType::Expression(loc(de_expr(a.first()?)?)),
+        "T" => ast::ExpressionOrType::Type(de_type(a.first()?)?),
+        "B" => ast::ExpressionOrType::Either(loc(de_expr(a.first()?)?), de_type(a.get(1)?)?),
+        _ => return None,
+    })
+}
+
+/// A lone name in an expression-or-type position cannot be told apart by syntax: the parser answers
+/// `Either`. `Expression(Identifier n)`, `Type(n)` and `Either(n, n)` are therefore one tree here.
+fn ser_eot(e: &ast::ExpressionOrType) -> SExp {
+    let plain_type = |t: &ast::TypeId| {
+        t.base.layout.1.is_empty()
+            && t.base.modifiers.modifiers.is_empty()
+            && t.abstract_declarator == ast::Declarator::Empty
+    };
+    match e {
+        ast::ExpressionOrType::Expression(x) => {
+            if let ast::Expression::Identifier(id) = &x.node {
+                return SExp::list(
+                    "B",
+                    vec![ser_expr(&x.node), SExp::list("ty", ser_scoped(id))],
+                );
+            }
+        }
+        ast::ExpressionOrType::Type(t) if plain_type(t) => {
+            return SExp::list(
+                "B",
+                vec![
+                    SExp::list("id", ser_scoped(&t.base.layout.0)),
+                    SExp::list("ty", ser_scoped(&t.base.layout.0)),
+                ],
+            );
+        }
+        _ => {}
+    }
+    match e {
+        ast::ExpressionOrType::Expression(e) => SExp::list("E", vec![ser_expr(&e.node)]),
+        ast::ExpressionOrType::Type(t) => SExp::list("T", vec![ser_type(t)]),
+        ast::ExpressionOrType::Either(e, t) => SExp::list("B", vec![ser_expr(&e.node), ser_type(t)]),
+    }
+}
+
+fn de_init(s: &SExp) -> Option<ast::Initializer> {
+    match s.head()? {
+        "agg" => {
+            let mut v = Vec::new();
+            for x in s.args() {
+                v.push(de_init(x)?);
+            }
+            if v.is_empty() {
+                return None;
+            }
+            Some(ast::Initializer::Aggregate(v))
+        }
+        _ => Some(ast::Initializer::Expression(loc(de_expr(s)?))),
+    }
+}
+
+fn ser_init(i: &ast::Initializer) -> SExp {
+    match i {
+        ast::Initializer::Expression(e) => ser_expr(&e.node),
+        ast::Initializer::Aggregate(v) => SExp::list("agg", v.iter().map(ser_init).collect()),
+        ast::Initializer::StaticSampler(_) => SExp::atom("static-sampler"),
+    }
+}
+
+pub fn de_expr(s: &SExp) -> Option<ast::Expression> {
+    let a = s.args();
+    Some(match s.head()? {
+        "lit" => ast::Expression::Literal(de_lit(a)?),
+        "id" => ast::Expression::Identifier(de_scoped(a)?),
+        "un" => {
+            let op = UNOPS.iter().find(|(n, _)| Some(*n) == a.first().and_then(|x| x.as_atom()))?;
+            ast::Expression::UnaryOperation(op.1.clone(), bloc(de_expr(a.get(1)?)?))
+        }
+        "bin" => {
+            let op = BINOPS.iter().find(|(n, _)| Some(*n) == a.first().and_then(|x| x.as_atom()))?;
+            ast::Expression::BinaryOperation(
+                op.1.clone(),
+                bloc(de_expr(a.get(1)?)?),
+                bloc(de_expr(a.get(2)?)?),
+            )
+        }
+        "tern" => ast::Expression::TernaryConditional(
+            bloc(de_expr(a.first()?)?),
+            bloc(de_expr(a.get(1)?)?),
+            bloc(de_expr(a.get(2)?)?),
+        ),
+        "sub" => ast::Expression::ArraySubscript(bloc(de_expr(a.first()?)?), bloc(de_expr(a.get(1)?)?)),
+        "mem" => ast::Expression::Member(bloc(de_expr(a.first()?)?), de_scoped(&a[1..])?),
+        "call" => {
+            let f = de_expr(a.first()?)?;
+            let mut targs = Vec::new();
+            for x in a.get(1)?.as_list()? {
+                targs.push(de_eot(x)?);
+            }
+            let mut args = Vec::new();
+            for x in a.get(2)?.as_list()? {
+                args.push(loc(de_expr(x)?));
+            }
+            ast::Expression::Call(bloc(f), targs, args)
+        }
+        "cast" => ast::Expression::Cast(Box::new(de_type(a.first()?)?), bloc(de_expr(a.get(1)?)?)),
+        "sizeof" => ast::Expression::SizeOf(Box::new(de_eot(a.first()?)?)),
+        "binit" => {
+            let t = de_type(a.first()?)?;
+            let mut v = Vec::new();
+            for x in &a[1..] {
+                v.push(de_init(x)?);
+            }
+            ast::Expression::BracedInit(Box::new(t), v)
+        }
+        _ => return None,
+    })
+}
+
+impl SExp {
+    fn as_list(&self) -> Option<&[SExp]> {
+        match self {
+            SExp::List(l) => Some(l),
+            _ => None,
+        }
+    }
+}
+
+pub fn ser_expr(e: &ast::Expression) -> SExp {
+    match e {
+        ast::Expression::Literal(l) => ser_lit(l),
+        ast::Expression::Identifier(id) => SExp::list("id", ser_scoped(id)),
+        ast::Expression::UnaryOperation(op, x) => {
+            SExp::list("un", vec![SExp::atom(unop_name(op)), ser_expr(&x.node)])
+        }
+        ast::Expression::BinaryOperation(op, l, r) => SExp::list(
+            "bin",
+            vec![SExp::atom(binop_name(op)), ser_expr(&l.node), ser_expr(&r.node)],
+        ),
+        ast::Expression::TernaryConditional(c, a, b) => SExp::list(
+            "tern",
+            vec![ser_expr(&c.node), ser_expr(&a.node), ser_expr(&b.node)],
+        ),
+        ast::Expression::ArraySubscript(o, i) => {
+            SExp::list("sub", vec![ser_expr(&o.node), ser_expr(&i.node)])
+        }
+        ast::Expression::Member(o, name) => {
+            let mut v = vec![ser_expr(&o.node)];
+            v.extend(ser_scoped(name));
+            SExp::list("mem", v)
+        }
+        ast::Expression::Call(f, targs, args) => SExp::list(
+            "call",
+            vec![
+                ser_expr(&f.node),
+                SExp::List(targs.iter().map(ser_eot).collect()),
+                SExp::List(args.iter().map(|a| ser_expr(&a.node)).collect()),
+            ],
+        ),
+        ast::Expression::Cast(t, x) => SExp::list("cast", vec![ser_type(t), ser_expr(&x.node)]),
+        ast::Expression::BracedInit(t, inits) => {
+            let mut v = vec![ser_type(t)];
+            v.extend(inits.iter().map(ser_init));
+            SExp::list("binit", v)
+        }
+        ast::Expression::SizeOf(x) => SExp::list("sizeof", vec![ser_eot(x)]),
+        ast::Expression::AmbiguousParseBranch(brs) => SExp::list(
+            "amb",
+            brs.iter()
+                .map(|b| {
+                    let mut v = vec![ser_expr(&b.expr.node)];
+                    for n in &b.expected_type_names {
+                        v.push(SExp::list("n", ser_scoped(n)));
+                    }
+                    SExp::list("br", v)
+                })
+                .collect(),
+        ),
+    }
+}
+
+// ------------------------------------------------------------------------------------------ ambiguity resolution
+/// names the tree uses in type position (cast / sizeof-type / template type argument / braced init)
+fn type_names_expr(e: &ast::Expression, out: &mut Vec<ast::ScopedIdentifier>) {
+    match e {
+        ast::Expression::Literal(_) | ast::Expression::Identifier(_) => {}
+        ast::Expression::UnaryOperation(_, x) => type_names_expr(&x.node, out),
+        ast::Expression::BinaryOperation(_, l, r) => {
+            type_names_expr(&l.node, out);
+            type_names_expr(&r.node, out)
+        }
+        ast::Expression::TernaryConditional(c, a, b) => {
+            type_names_expr(&c.node, out);
+            type_names_expr(&a.node, out);
+            type_names_expr(&b.node, out)
+        }
+        ast::Expression::ArraySubscript(o, i) => {
+            type_names_expr(&o.node, out);
+            type_names_expr(&i.node, out)
+        }
+        ast::Expression::Member(o, _) => type_names_expr(&o.node, out),
+        ast::Expression::Call(f, targs, args) => {
+            type_names_expr(&f.node, out);
+            for t in targs {
+                type_names_eot(t, out);
+            }
+            for a in args {
+                type_names_expr(&a.node, out);
+            }
+        }
+        ast::Expression::Cast(t, x) => {
+            type_names_type(t, out);
+            type_names_expr(&x.node, out)
+        }
+        ast::Expression::BracedInit(t, inits) => {
+            type_names_type(t, out);
+            for i in inits {
+                type_names_init(i, out);
+            }
+        }
+        ast::Expression::SizeOf(x) => type_names_eot(x, out),
+        ast::Expression::AmbiguousParseBranch(_) => {}
+    }
+}
+
+fn type_names_init(i: &ast::Initializer, out: &mut Vec<ast::ScopedIdentifier>) {
+    match i {
+        ast::Initializer::Expression(e) => type_names_expr(&e.node, out),
+        ast::Initializer::Aggregate(v) => v.iter().for_each(|x| type_names_init(x, out)),
+        ast::Initializer::StaticSampler(_) => {}
+    }
+}
+
+fn type_names_type(t: &ast::TypeId, out: &mut Vec<ast::ScopedIdentifier>) {
+    out.push(t.base.layout.0.clone().unlocate());
+    for a in t.base.layout.1.iter() {
+        type_names_eot(a, out);
+    }
+}
+
+fn type_names_eot(e: &ast::ExpressionOrType, out: &mut Vec<ast::ScopedIdentifier>) {
+    match e {
+        ast::ExpressionOrType::Expression(e) => type_names_expr(&e.node, out),
+        ast::ExpressionOrType::Type(t) => type_names_type(t, out),
+        ast::ExpressionOrType::Either(_, _) => {}
+    }
+}
+
+/// pick, in every ambiguous node, the branch the type checker would pick when exactly `types` are type names
+fn resolve(e: &ast::Expression, types: &[ast::ScopedIdentifier]) -> ast::Expression {
+    let r = |x: &Located<ast::Expression>| Box::new(loc(resolve(&x.node, types)));
+    match e {
+        ast::Expression::Literal(_) | ast::Expression::Identifier(_) => e.clone(),
+        ast::Expression::UnaryOperation(op, x) => ast::Expression::UnaryOperation(op.clone(), r(x)),
+        ast::Expression::BinaryOperation(op, a, b) => {
+            ast::Expression::BinaryOperation(op.clone(), r(a), r(b))
+        }
+        ast::Expression::TernaryConditional(c, a, b) => {
+            ast::Expression::TernaryConditional(r(c), r(a), r(b))
+        }
+        ast::Expression::ArraySubscript(a, b) => ast::Expression::ArraySubscript(r(a), r(b)),
+        ast::Expression::Member(a, n) => ast::Expression::Member(r(a), n.clone()),
+        ast::Expression::Call(f, targs, args) => ast::Expression::Call(
+            r(f),
+            targs.iter().map(|t| resolve_eot(t, types)).collect(),
+            args.iter().map(|a| loc(resolve(&a.node, types))).collect(),
+        ),
+        ast::Expression::Cast(t, x) => ast::Expression::Cast(Box::new(resolve_type(t, types)), r(x)),
+        ast::Expression::BracedInit(t, inits) => ast::Expression::BracedInit(
+            Box::new(resolve_type(t, types)),
+            inits.iter().map(|i| resolve_init(i, types)).collect(),
+        ),
+        ast::Expression::SizeOf(x) => ast::Expression::SizeOf(Box::new(resolve_eot(x, types))),
+        ast::Expression::AmbiguousParseBranch(brs) => {
+            let (last, main) = brs.split_last().unwrap();
+            for b in main {
+                if b.expected_type_names.iter().all(|n| types.contains(n)) {
+                    return resolve(&b.expr.node, types);
+                }
+            }
+            resolve(&last.expr.node, types)
+        }
+    }
+}
+
+fn resolve_init(i: &ast::Initializer, types: &[ast::ScopedIdentifier]) -> ast::Initializer {
+    match i {
+        ast::Initializer::Expression(e) => ast::Initializer::Expression(loc(resolve(&e.node, types))),
+        ast::Initializer::Aggregate(v) => {
+            ast::Initializer::Aggregate(v.iter().map(|x| resolve_init(x, types)).collect())
+        }
+        other => other.clone(),
+    }
+}
+
+fn resolve_type(t: &ast::TypeId, types: &[ast::ScopedIdentifier]) -> ast::TypeId {
+    let mut t = t.clone();
+    let args: Vec<_> = t.base.layout.1.iter().map(|a| resolve_eot(a, types)).collect();
+    t.base.layout.1 = args.into_boxed_slice();
+    t
+}
+
+fn resolve_eot(e: &ast::ExpressionOrType, types: &[ast::ScopedIdentifier]) -> ast::ExpressionOrType {
+    match e {
+        ast::ExpressionOrType::Expression(e) => {
+            ast::ExpressionOrType::Expression(loc(resolve(&e.node, types)))
+        }
+        ast::ExpressionOrType::Type(t) => ast::ExpressionOrType::Type(resolve_type(t, types)),
+        ast::ExpressionOrType::Either(e, t) => {
+            ast::ExpressionOrType::Either(loc(resolve(&e.node, types)), resolve_type(t, types))
+        }
+    }
+}
+
+// ------------------------------------------------------------------------------------------ wrapper module
+#[derive(Clone, Copy, PartialEq)]
+enum Ctx {
+    Ret,
+    Stmt,
+    Init,
+    Arg,
+    Idx,
+}
+
+impl Ctx {
+    fn parse(s: &str) -> Option<Ctx> {
+        Some(match s {
+            "ret" => Ctx::Ret,
+            "stmt" => Ctx::Stmt,
+            "init" => Ctx::Init,
+            "arg" => Ctx::Arg,
+            "idx" => Ctx::Idx,
+            _ => return None,
+        })
+    }
+    fn name(self) -> &'static str {
+        match self {
+            Ctx::Ret => "ret",
+            Ctx::Stmt => "stmt",
+            Ctx::Init => "init",
+            Ctx::Arg => "arg",
+            Ctx::Idx => "idx",
+        }
+    }
+    fn template(self) -> &'static str {
+        match self {
+            Ctx::Ret | Ctx::Arg | Ctx::Idx => "void f() { return zz; }",
+            Ctx::Stmt => "void f() { zz; }",
+            Ctx::Init => "void f() { int v = zz; }",
+        }
+    }
+}
+
+fn lex_parse(text: &str) -> Result<ast::Module, String> {
+    let mut sm = rssl_text::SourceManager::new();
+    let toks = rssl_preprocess::preprocess_fragment(
+        text,
+        rssl_text::FileName("c09.rssl".to_string()),
+        &mut sm,
+    )
+    .map_err(|_| "ERR:lex".to_string())?;
+    let toks = rssl_preprocess::prepare_tokens(&toks);
+    rssl_parser::parse(&toks).map_err(|_| "ERR:parse".to_string())
+}
+
+fn body_mut(m: &mut ast::Module) -> Option<&mut ast::Statement> {
+    match m.root_definitions.first_mut()? {
+        ast::RootDefinition::Function(f) => f.body.as_mut()?.first_mut(),
+        _ => None,
+    }
+}
+
+fn put(m: &mut ast::Module, ctx: Ctx, e: ast::Expression) -> Option<()> {
+    let st = body_mut(m)?;
+    match ctx {
+        Ctx::Ret => st.kind = ast::StatementKind::Return(Some(loc(e))),
+        Ctx::Arg => {
+            st.kind = ast::StatementKind::Return(Some(loc(ast::Expression::Call(
+                bloc(ast::Expression::Identifier(ast::ScopedIdentifier::trivial("g"))),
+                Vec::new(),
+                vec![loc(e)],
+            ))))
+        }
+        Ctx::Idx => {
+            st.kind = ast::StatementKind::Return(Some(loc(ast::Expression::ArraySubscript(
+                bloc(ast::Expression::Identifier(ast::ScopedIdentifier::trivial("g"))),
+                bloc(e),
+            ))))
+        }
+        Ctx::Stmt => st.kind = ast::StatementKind::Expression(e),
+        Ctx::Init => match &mut st.kind {
+            ast::StatementKind::Var(vd) => {
+                vd.defs.first_mut()?.init = Some(ast::Initializer::Expression(loc(e)))
+            }
+            _ => return None,
+        },
+    }
+    Some(())
+}
+
+/// the expression at the wrapper's hole, or a description of why the re-read module has another shape
+fn get(m: &ast::Module, ctx: Ctx, types: &[ast::ScopedIdentifier]) -> Result<ast::Expression, String> {
+    if m.root_definitions.len() != 1 {
+        return Err(format!("ERR:shape roots={}", m.root_definitions.len()));
+    }
+    let f = match &m.root_definitions[0] {
+        ast::RootDefinition::Function(f) => f,
+        _ => return Err("ERR:shape not-a-function".to_string()),
+    };
+    let body = f.body.as_ref().ok_or("ERR:shape no-body")?;
+    if body.len() != 1 {
+        return Err(format!("ERR:shape statements={}", body.len()));
+    }
+    match (ctx, &body[0].kind) {
+        (Ctx::Ret, ast::StatementKind::Return(Some(e))) => Ok(e.node.clone()),
+        (Ctx::Arg, ast::StatementKind::Return(Some(e))) => match &resolve(&e.node, types) {
+            ast::Expression::Call(g, t, args)
+                if t.is_empty()
+                    && args.len() == 1
+                    && ser_expr(&g.node).show() == "(id g)" =>
+            {
+                Ok(args[0].node.clone())
+            }
+            other => Err(format!("ERR:shape arg {}", ser_expr(other).show())),
+        },
+        (Ctx::Idx, ast::StatementKind::Return(Some(e))) => match &resolve(&e.node, types) {
+            ast::Expression::ArraySubscript(g, i)
+                if ser_expr(&g.node).show() == "(id g)" =>
+            {
+                Ok(i.node.clone())
+            }
+            other => Err(format!("ERR:shape idx {}", ser_expr(other).show())),
+        },
+        (Ctx::Stmt, ast::StatementKind::Expression(e)) => Ok(e.clone()),
+        (Ctx::Stmt, ast::StatementKind::AmbiguousDeclarationOrExpression(_, e)) => Ok(e.clone()),
+        (Ctx::Stmt, ast::StatementKind::Var(_)) => Err("ERR:shape declaration".to_string()),
+        (Ctx::Init, ast::StatementKind::Var(vd)) => {
+            if vd.defs.len() != 1 {
+                return Err(format!("ERR:shape declarators={}", vd.defs.len()));
+            }
+            match &vd.defs[0].init {
+                Some(ast::Initializer::Expression(e)) => Ok(e.node.clone()),
+                _ => Err("ERR:shape initializer".to_string()),
+            }
+        }
+        _ => Err("ERR:shape statement-kind".to_string()),
+    }
+}
+
+/// the expression's own text inside the wrapper's output
+fn extract_text(full: &str, ctx: Ctx) -> String {
+    let t = full.trim();
+    let (pre, post): (&str, &str) = match ctx {
+        Ctx::Ret => ("return ", ";"),
+        Ctx::Arg => ("return g(", ");"),
+        Ctx::Idx => ("return g[", "];"),
+        Ctx::Stmt => ("{", ";"),
+        Ctx::Init => ("int v = ", ";"),
+    };
+    let start = match t.find(pre) {
+        Some(i) => i + pre.len(),
+        None => return t.to_string(),
+    };
+    let end = match t.rfind('}') {
+        Some(j) => j,
+        None => return t.to_string(),
+    };
+    let inner = t[start..end].trim();
+    inner.strip_suffix(post).unwrap_or(inner).trim().to_string()
+}
+
+/// An expression-or-type position that reads as both is answered `Either` by the parser; against an original that
+/// says `Expression(e)` / `Type(t)` only that half is compared.
+fn align(orig: &SExp, new: &SExp) -> SExp {
+    match (orig, new) {
+        (SExp::List(o), SExp::List(n)) => {
+            if orig.head() == Some("E") && new.head() == Some("B") && o.len() == 2 && n.len() == 3 {
+                return SExp::List(vec![SExp::atom("E"), align(&o[1], &n[1])]);
+            }
+            if orig.head() == Some("T") && new.head() == Some("B") && o.len() == 2 && n.len() == 3 {
+                return SExp::List(vec![SExp::atom("T"), align(&o[1], &n[2])]);
+            }
+            if o.len() == n.len() {
+                return SExp::List(o.iter().zip(n.iter()).map(|(a, b)| align(a, b)).collect());
+            }
+            new.clone()
+        }
+        _ => new.clone(),
+    }
+}
+
+/// where two trees first differ: `<original node> -> <re-read node>`
+fn diff_sig(orig: &SExp, new: &SExp) -> String {
+    fn tag(s: &SExp) -> String {
+        match s {
+            SExp::Atom(a) => a.clone(),
+            SExp::List(l) => {
+                let h = s.head().unwrap_or("list");
+                if h == "lit" || h == "un" || h == "bin" {
+                    format!("{}:{}", h, l.get(1).and_then(|x| x.as_atom()).unwrap_or("?"))
+                } else {
+                    h.to_string()
+                }
+            }
+        }
+    }
+    match (orig, new) {
+        (SExp::List(o), SExp::List(n)) if tag(orig) == tag(new) && o.len() == n.len() => {
+            for (a, b) in o.iter().zip(n.iter()) {
+                if a != b {
+                    return diff_sig(a, b);
+                }
+            }
+            "same".into()
+        }
+        (SExp::List(_), SExp::List(_)) if tag(orig) == tag(new) => format!("{}-length", tag(orig)),
+        (SExp::Atom(a), SExp::Atom(b)) => {
+            let num = |x: &str| x.chars().all(|c| c.is_ascii_hexdigit() || c == 'x' || c == '-');
+            if num(a) && num(b) { "value".into() } else { format!("{}->{}", a, b) }
+        }
+        _ => format!("{}->{}", tag(orig), tag(new)),
+    }
+}
+
+struct Outcome {
+    obs: String,
+    oracle: String,
+}
+
+fn run_tree(ctx: Ctx, tree: &SExp) -> Outcome {
+    let e = match de_expr(tree) {
+        Some(e) => e,
+        None => {
+            return Outcome {
+                obs: "bad-request".into(),
+                oracle: "SKIP:bad tree".into(),
+            };
+        }
+    };
+    let mut module = match lex_parse(ctx.template()) {
+        Ok(m) => m,
+        Err(s) => {
+            return Outcome {
+                obs: "template".into(),
+                oracle: format!("SKIP:template {}", s),
+            };
+        }
+    };
+    if put(&mut module, ctx, e.clone()).is_none() {
+        return Outcome {
+            obs: "template".into(),
+            oracle: "SKIP:template shape".into(),
+        };
+    }
+    let text = match guard(|| rssl_formatter::format(&module, rssl_formatter::Target::Hlsl)) {
+        Ok(Ok(t)) => t,
+        Ok(Err(_)) => {
+            return Outcome {
+                obs: "FMT-ERR".into(),
+                oracle: "FAIL:formatter returned an error".into(),
+            };
+        }
+        Err(p) => {
+            return Outcome {
+                obs: "FMT-PANIC".into(),
+                oracle: format!("FAIL:panic {}", p),
+            };
+        }
+    };
+    let etext = extract_text(&text, ctx);
+    let original = ser_expr(&e).show(); // canonical form (see ser_eot)
+    let reparsed = match guard(|| lex_parse(&text)) {
+        Ok(r) => r,
+        Err(p) => {
+            return Outcome {
+                obs: format!("{} ==> PANIC", etext),
+                oracle: format!("FAIL:panic {}", p),
+            };
+        }
+    };
+    let m2 = match reparsed {
+        Ok(m) => m,
+        Err(s) => {
+            return Outcome {
+                obs: format!("{} ==> {}", etext, s),
+                oracle: format!("FAIL:printed text is rejected ({})", s),
+            };
+        }
+    };
+    let mut types = Vec::new();
+    type_names_expr(&e, &mut types);
+    let e2 = match get(&m2, ctx, &types) {
+        Ok(e2) => e2,
+        Err(s) => {
+            return Outcome {
+                obs: format!("{} ==> {}", etext, s),
+                oracle: format!("FAIL:printed text reads back as another construct ({})", s),
+            };
+        }
+    };
+    let e2r = resolve(&e2, &types);
+    let back_s = align(&ser_expr(&e), &ser_expr(&e2r));
+    let back = back_s.show();
+    let obs = format!("{} ==> {}", etext, back);
+    if back != original {
+        return Outcome {
+            obs,
+            oracle: format!("FAIL:tree differs after print+parse [{}]", diff_sig(&ser_expr(&e), &back_s)),
+        };
+    }
+    // second generation text
+    let mut m3 = m2.clone();
+    if put(&mut m3, ctx, e2r).is_some() {
+        match guard(|| rssl_formatter::format(&m3, rssl_formatter::Target::Hlsl)) {
+            Ok(Ok(t2)) if t2 == text => {}
+            Ok(Ok(_)) => {
+                return Outcome {
+                    obs,
+                    oracle: "FAIL:second print differs from first".into(),
+                };
+            }
+            _ => {
+                return Outcome {
+                    obs,
+                    oracle: "FAIL:second print failed".into(),
+                };
+            }
+        }
+    }
+    Outcome {
+        obs,
+        oracle: "ok".into(),
+    }
+}
+
+
+// ------------------------------------------------------------------------------------------ shrinking
+const EXPR_HEADS: [&str; 11] = [
+    "lit", "id", "un", "bin", "tern", "sub", "mem", "call", "cast", "sizeof", "binit",
+];
+
+fn is_expr_node(s: &SExp) -> bool {
+    matches!(s.head(), Some(h) if EXPR_HEADS.contains(&h))
+}
+
+/// paths (child indices) of every expression node, pre-order
+fn expr_paths(s: &SExp, here: &mut Vec<usize>, out: &mut Vec<Vec<usize>>) {
+    if is_expr_node(s) {
+        out.push(here.clone());
+    }
+    if let SExp::List(l) = s {
+        for (i, x) in l.iter().enumerate() {
+            here.push(i);
+            expr_paths(x, here, out);
+            here.pop();
+        }
+    }
+}
+
+fn at<'a>(s: &'a SExp, path: &[usize]) -> &'a SExp {
+    match (path.split_first(), s) {
+        (Some((i, rest)), SExp::List(l)) => at(&l[*i], rest),
+        _ => s,
+    }
+}
+
+fn replace_at(s: &SExp, path: &[usize], new: &SExp) -> SExp {
+    match (path.split_first(), s) {
+        (Some((i, rest)), SExp::List(l)) => {
+            let mut v = l.clone();
+            v[*i] = replace_at(&l[*i], rest, new);
+            SExp::List(v)
+        }
+        _ => new.clone(),
+    }
+}
+
+fn remove_at(s: &SExp, path: &[usize]) -> SExp {
+    match (path.split_first(), s) {
+        (Some((i, rest)), SExp::List(l)) if rest.is_empty() => {
+            let mut v = l.clone();
+            v.remove(*i);
+            SExp::List(v)
+        }
+        (Some((i, rest)), SExp::List(l)) => {
+            let mut v = l.clone();
+            v[*i] = remove_at(&l[*i], rest);
+            SExp::List(v)
+        }
+        _ => s.clone(),
+    }
+}
+
+/// what kind of failure an oracle verdict is (shrinking keeps the kind fixed)
+fn fail_kind(oracle: &str) -> String {
+    if !oracle.starts_with("FAIL:") {
+        return String::new();
+    }
+    let d = &oracle[5..];
+    if d.starts_with("panic") {
+        let digits_gone: String = d.chars().map(|c| if c.is_ascii_digit() { 'N' } else { c }).collect();
+        return digits_gone;
+    }
+    if d.contains("ERR:lex") {
+        "rejected-by-lexer".into()
+    } else if d.contains("ERR:parse") {
+        "rejected-by-parser".into()
+    } else if d.starts_with("printed text reads back as another construct") {
+        "other-construct".into()
+    } else if d.starts_with("tree differs") {
+        let sig = d.split('[').nth(1).and_then(|x| x.split(']').next()).unwrap_or("");
+        format!("tree-differs[{}]", sig)
+    } else if d.starts_with("second print") {
+        "second-print".into()
+    } else {
+        d.chars().take(40).collect()
+    }
+}
+
+fn canonical_literals(kind: &str) -> Vec<&'static str> {
+    match kind {
+        "i" => vec!["(lit i 1)"],
+        "u" => vec!["(lit u 1)"],
+        "ul" => vec!["(lit ul 1)"],
+        "l" => vec!["(lit l 1)", "(lit l -1)"],
+        "b" => vec!["(lit b 1)"],
+        "f" => vec!["(lit f 0x3ff8000000000000)", "(lit f 0x3ff0000000000000)", "(lit f 0xbff8000000000000)"],
+        "h" => vec!["(lit h 0x3fc00000)", "(lit h 0x3f800000)", "(lit h 0xbfc00000)"],
+        "f32" => vec!["(lit f32 0x3fc00000)", "(lit f32 0x3f800000)", "(lit f32 0xbfc00000)"],
+        "f64" => vec!["(lit f64 0x3ff8000000000000)", "(lit f64 0x3ff0000000000000)", "(lit f64 0xbff8000000000000)"],
+        _ => vec![],
+    }
+}
+
+/// greedy minimisation of a failing (ctx, tree) keeping the failure kind
+fn shrink(ctx: Ctx, tree: &SExp, kind: &str) -> (Ctx, SExp) {
+    let mut ctx = ctx;
+    let mut tree = tree.clone();
+    let mut budget = 600;
+    let still = |c: Ctx, t: &SExp, budget: &mut i32| -> bool {
+        *budget -= 1;
+        fail_kind(&run_tree(c, t).oracle) == kind
+    };
+    if ctx != Ctx::Ret && still(Ctx::Ret, &tree, &mut budget) {
+        ctx = Ctx::Ret;
+    }
+    let ida = parse_sexp("(id a)").unwrap();
+    let mut progress = true;
+    while progress && budget > 0 {
+        progress = false;
+        let mut paths = Vec::new();
+        expr_paths(&tree, &mut Vec::new(), &mut paths);
+        'outer: for p in &paths {
+            let node = at(&tree, p).clone();
+            // candidates: (id a), canonical literal of the same kind, every expression node below this one
+            let mut cands: Vec<SExp> = Vec::new();
+            if node != ida {
+                cands.push(ida.clone());
+            }
+            if node.head() == Some("lit") {
+                for c in ["(lit i 1)", "(lit l -1)"] {
+                    let c = parse_sexp(c).unwrap();
+                    if c != node {
+                        cands.push(c);
+                    }
+                }
+                let k = node.args().first().and_then(|x| x.as_atom()).unwrap_or("");
+                for c in canonical_literals(k) {
+                    let c = parse_sexp(c).unwrap();
+                    if c == node {
+                        break;
+                    }
+                    cands.push(c);
+                }
+            }
+            let mut below = Vec::new();
+            expr_paths(&node, &mut Vec::new(), &mut below);
+            let mut subs: Vec<SExp> = below.iter().filter(|q| !q.is_empty()).map(|q| at(&node, q).clone()).collect();
+            subs.sort_by_key(|x| x.size());
+            cands.extend(subs);
+            let rank = |x: &SExp| -> (usize, usize, usize, String) {
+                let sh = x.show();
+                let r = if *x == ida {
+                    0
+                } else if x.head() == Some("lit") {
+                    let k = x.args().first().and_then(|y| y.as_atom()).unwrap_or("");
+                    if sh == "(lit i 1)" {
+                        1
+                    } else if sh == "(lit l -1)" {
+                        2
+                    } else {
+                        3 + canonical_literals(k).iter().position(|c| *c == sh).unwrap_or(50)
+                    }
+                } else {
+                    100
+                };
+                (x.size(), r, sh.len(), sh)
+            };
+            for c in cands {
+                if rank(&c) >= rank(&node) {
+                    continue;
+                }
+                let t2 = replace_at(&tree, p, &c);
+                if t2 != tree && still(ctx, &t2, &mut budget) {
+                    tree = t2;
+                    progress = true;
+                    break 'outer;
+                }
+                if budget <= 0 {
+                    break 'outer;
+                }
+            }
+            // canonical operator / member name
+            if let (Some(h), SExp::List(l)) = (node.head(), &node) {
+                let mut alts: Vec<SExp> = Vec::new();
+                if h == "un" || h == "bin" {
+                    let cur = l[1].as_atom().unwrap_or("");
+                    let names: Vec<&str> = if h == "un" {
+                        UNOPS.iter().map(|x| x.0).collect()
+                    } else {
+                        BINOPS.iter().map(|x| x.0).collect()
+                    };
+                    for n in names {
+                        if n == cur {
+                            break;
+                        }
+                        let mut v = l.clone();
+                        v[1] = SExp::atom(n);
+                        alts.push(SExp::List(v));
+                    }
+                }
+                if h == "mem" && (l.len() != 3 || l[2] != SExp::atom("m")) {
+                    alts.push(SExp::List(vec![l[0].clone(), l[1].clone(), SExp::atom("m")]));
+                }
+                for c in alts {
+                    let t2 = replace_at(&tree, p, &c);
+                    if still(ctx, &t2, &mut budget) {
+                        tree = t2;
+                        progress = true;
+                        break 'outer;
+                    }
+                }
+            }
+            // drop an element of an argument list
+            if let Some((last, parent)) = p.split_last() {
+                let par = at(&tree, parent);
+                if !is_expr_node(par) || par.head() == Some("binit") && *last >= 2 {
+                    let t2 = remove_at(&tree, p);
+                    if de_expr(&t2).is_some() && still(ctx, &t2, &mut budget) {
+                        tree = t2;
+                        progress = true;
+                        break 'outer;
+                    }
+                }
+            }
+        }
+    }
+    // drop template arguments
+    loop {
+        let mut paths = Vec::new();
+        expr_paths(&tree, &mut Vec::new(), &mut paths);
+        let mut changed = false;
+        for p in &paths {
+            let node = at(&tree, p).clone();
+            if let (Some("call"), SExp::List(l)) = (node.head(), &node) {
+                if let Some(SExp::List(targs)) = l.get(2) {
+                    for i in 0..targs.len() {
+                        let mut t2 = targs.clone();
+                        t2.remove(i);
+                        let mut v = l.clone();
+                        v[2] = SExp::List(t2);
+                        let cand = replace_at(&tree, p, &SExp::List(v));
+                        if budget > 0 && still(ctx, &cand, &mut budget) {
+                            tree = cand;
+                            changed = true;
+                            break;
+                        }
+                    }
+                }
+            }
+            if changed {
+                break;
+            }
+        }
+        if !changed {
+            break;
+        }
+    }
+    // canonical type name
+    let shown = tree.show();
+    for n in ["float4", "float", "uint", "S", "U"] {
+        let cand = shown.replace(&format!("(ty {})", n), "(ty T)");
+        if cand != shown {
+            if let Some(t2) = parse_sexp(&cand) {
+                if still(ctx, &t2, &mut budget) {
+                    tree = t2;
+                    break;
+                }
+            }
+        }
+    }
+    (ctx, tree)
+}
+
+fn run_request(line: &str, out: &mut Out, hist: &mut Stats) {
+    let f: Vec<&str> = line.split('\t').collect();
+    match f.as_slice() {
+        ["C09.rt", ctx, tree] => {
+            let (c, t) = match (Ctx::parse(ctx), parse_sexp(tree)) {
+                (Some(c), Some(t)) => (c, t),
+                _ => {
+                    out.case(line, "bad-request", "SKIP:bad request");
+                    return;
+                }
+            };
+            let mut o = run_tree(c, &t);
+            hist.record(ctx, &t, &o);
+            if o.oracle.starts_with("FAIL") {
+                let kind = fail_kind(&o.oracle);
+                let (mc, mt) = shrink(c, &t, &kind);
+                let key = format!("{} {} {}", kind, mc.name(), mt.show());
+                hist.classes.add(&key);
+                o.oracle = format!("{} min={}", o.oracle, key);
+            }
+            out.case(line, &o.obs, &o.oracle);
+        }
+        _ => out.case(line, "bad-request", "SKIP:unknown op"),
+    }
+}
+
+// ------------------------------------------------------------------------------------------ statistics
+#[derive(Default)]
+struct Stats {
+    ctx: Hist,
+    depth: Hist,
+    size: Hist,
+    nodes: Hist,
+    ops: Hist,
+    outcome: Hist,
+    classes: Hist,
+    parens: u64,
+    trivial: u64,
+    total: u64,
+}
+
+fn count_nodes(t: &SExp, nodes: &mut Hist, ops: &mut Hist) {
+    if let SExp::List(l) = t {
+        if let Some(h) = t.head() {
+            nodes.add(h);
+            if h == "un" || h == "bin" {
+                if let Some(op) = l.get(1).and_then(|x| x.as_atom()) {
+                    ops.add(op);
+                }
+            }
+        }
+        for x in l {
+            count_nodes(x, nodes, ops);
+        }
+    }
+}
+
+impl Stats {
+    fn record(&mut self, ctx: &str, t: &SExp, o: &Outcome) {
+        self.total += 1;
+        self.ctx.add(ctx);
+        self.depth.add(&format!("{:02}", t.depth()));
+        let sz = t.size();
+        self.size.add(if sz <= 2 {
+            "01-02"
+        } else if sz <= 5 {
+            "03-05"
+        } else if sz <= 10 {
+            "06-10"
+        } else if sz <= 20 {
+            "11-20"
+        } else {
+            "21+"
+        });
+        count_nodes(t, &mut self.nodes, &mut self.ops);
+        if o.obs.contains('(') && o.obs.split(" ==> ").next().unwrap_or("").contains('(') {
+            self.parens += 1;
+        }
+        if t.depth() <= 1 {
+            self.trivial += 1;
+        }
+        let k = if o.oracle == "ok" {
+            "ok".to_string()
+        } else {
+            o.oracle.chars().take(40).collect()
+        };
+        self.outcome.add(&k);
+    }
+    fn json(&self, stream: &str) -> String {
+        format!(
+            "{{\"stream\":{},\"cases\":{},\"leaf_only\":{},\"text_has_parens\":{},\"ctx\":{},\"depth\":{},\"size\":{},\"node_kinds\":{},\"operators\":{},\"outcomes\":{},\"minimal_failing_shapes\":{}}}",
+            json_str(stream),
+            self.total,
+            self.trivial,
+            self.parens,
+            self.ctx.json(),
+            self.depth.json(),
+            self.size.json(),
+            self.nodes.json(),
+            self.ops.json(),
+            self.outcome.json(),
+            self.classes.json()
+        )
+    }
+}
+
+// ------------------------------------------------------------------------------------------ generators
+fn leaves() -> Vec<SExp> {
+    vec![
+        parse_sexp("(id a)").unwrap(),
+        parse_sexp("(id b)").unwrap(),
+        parse_sexp("(lit i 3)").unwrap(),
+    ]
+}
+
+/// operators used by the exhaustive stream: one per precedence level and the adjacency-sensitive ones
+const EX_UN: [&str; 6] = ["Minus", "Plus", "PrefixDecrement", "PostfixIncrement", "LogicalNot", "AddressOf"];
+const EX_BIN: [&str; 12] = [
+    "Multiply", "Subtract", "LeftShift", "LessThan", "GreaterThan", "Equality", "BitwiseAnd", "BooleanOr",
+    "Assignment", "RightShiftAssignment", "Sequence", "Add",
+];
+
+fn un(op: &str, e: SExp) -> SExp {
+    SExp::list("un", vec![SExp::atom(op), e])
+}
+fn bin(op: &str, l: SExp, r: SExp) -> SExp {
+    SExp::list("bin", vec![SExp::atom(op), l, r])
+}
+
+/// every tree of depth <= d over the exhaustive alphabet (depth 1 = leaves)
+fn exhaustive(d: usize, full: bool) -> Vec<SExp> {
+    if d <= 1 {
+        return leaves();
+    }
+    let sub = exhaustive(d - 1, full);
+    // children of the top node: all of depth d-1; to keep depth 3 tractable the right/extra operands range over
+    // a thinner set
+    let thin: Vec<SExp> = if d >= 3 && !full {
+        sub.iter().filter(|t| t.depth() <= 1 || t.size() <= 2).cloned().collect()
+    } else {
+        sub.clone()
+    };
+    let mut out = sub.clone();
+    for op in EX_UN {
+        for x in &sub {
+            out.push(un(op, x.clone()));
+        }
+    }
+    for op in EX_BIN {
+        for l in &sub {
+            for r in &thin {
+                out.push(bin(op, l.clone(), r.clone()));
+                if l != r && !thin.contains(l) {
+                    out.push(bin(op, r.clone(), l.clone()));
+                }
+            }
+        }
+    }
+    for c in &sub {
+        let a = &thin[0];
+        let b = &thin[1 % thin.len()];
+        out.push(SExp::list("tern", vec![c.clone(), a.clone(), b.clone()]));
+        out.push(SExp::list("tern", vec![a.clone(), c.clone(), b.clone()]));
+        out.push(SExp::list("tern", vec![a.clone(), b.clone(), c.clone()]));
+        out.push(SExp::list("sub", vec![c.clone(), a.clone()]));
+        out.push(SExp::list("sub", vec![a.clone(), c.clone()]));
+        out.push(SExp::list("mem", vec![c.clone(), SExp::atom("m")]));
+        out.push(SExp::list("call", vec![c.clone(), SExp::List(vec![]), SExp::List(vec![a.clone()])]));
+        out.push(SExp::list("call", vec![a.clone(), SExp::List(vec![]), SExp::List(vec![c.clone(), b.clone()])]));
+    }
+    out
+}
+
+struct Gen {
+    rng: Rng,
+}
+
+impl Gen {
+    fn leaf(&mut self) -> SExp {
+        let r = self.rng.below(100);
+        if r < 45 {
+            let n = *self.rng.pick(&["a", "b", "c", "x", "y", "p", "q"]);
+            SExp::list("id", vec![SExp::atom(n)])
+        } else if r < 50 {
+            parse_sexp("(id N v)").unwrap()
+        } else if r < 53 {
+            parse_sexp("(id :: a)").unwrap()
+        } else {
+            self.literal(false)
+        }
+    }
+
+    fn literal(&mut self, extreme: bool) -> SExp {
+        let k = self.rng.below(if extreme { 14 } else { 10 });
+        let s = match k {
+            0 | 1 | 2 => format!("(lit i {})", self.rng.below(100)),
+            3 => format!("(lit u {})", self.rng.below(100)),
+            4 => format!("(lit b {})", self.rng.below(2)),
+            5 => format!("(lit f32 0x{:08x})", (self.rng.below(64) as f32 * 0.25).to_bits()),
+            6 => format!("(lit f 0x{:016x})", (self.rng.below(64) as f64 * 0.5).to_bits()),
+            7 => format!("(lit ul {})", self.rng.below(1000)),
+            8 => format!("(lit l {})", self.rng.below(1000)),
+            9 => format!("(lit h 0x{:08x})", (self.rng.below(16) as f32 * 0.5).to_bits()),
+            10 => format!("(lit l {})", -(self.rng.below(1000) as i64) - 1),
+            11 => format!("(lit f32 0x{:08x})", (-(self.rng.below(64) as f32) * 0.25 - 0.25).to_bits()),
+            12 => format!("(lit f 0x{:016x})", (-(self.rng.below(64) as f64) * 0.5 - 0.5).to_bits()),
+            _ => format!("(lit f64 0x{:016x})", (self.rng.below(64) as f64 * 0.125).to_bits()),
+        };
+        parse_sexp(&s).unwrap()
+    }
+
+    fn type_id(&mut self) -> SExp {
+        let n = *self.rng.pick(&["float", "uint", "T", "float4", "S"]);
+        let mut t = SExp::list("ty", vec![SExp::atom(n)]);
+        if self.rng.chance(1, 8) {
+            t = SExp::list("const", vec![t]);
+        }
+        t
+    }
+
+    fn eot(&mut self, d: usize) -> SExp {
+        match self.rng.below(3) {
+            0 => SExp::list("T", vec![self.type_id()]),
+            1 => {
+                let n = *self.rng.pick(&["T", "U", "float"]);
+                SExp::list(
+                    "B",
+                    vec![
+                        SExp::list("id", vec![SExp::atom(n)]),
+                        SExp::list("ty", vec![SExp::atom(n)]),
+                    ],
+                )
+            }
+            _ => {
+                // operators containing `<`, `>` or `,` inside template arguments are a known defect class (corpus)
+                let e = self.expr(d.min(2), false);
+                let sh = e.show();
+                let risky = ["Less", "Greater", "Shift", "Sequence", "tern"].iter().any(|w| sh.contains(w));
+                SExp::list("E", vec![if risky { self.leaf() } else { e }])
+            }
+        }
+    }
+
+    /// random tree of depth <= d; `exotic` enables exporter-only shapes
+    fn expr(&mut self, d: usize, exotic: bool) -> SExp {
+        if d <= 1 || self.rng.chance(1, 7) {
+            return if exotic && self.rng.chance(1, 6) {
+                self.literal(true)
+            } else {
+                self.leaf()
+            };
+        }
+        let r = self.rng.below(100);
+        if r < 22 {
+            let op = UNOPS[self.rng.below(10) as usize].0;
+            un(op, self.expr(d - 1, exotic))
+        } else if r < 62 {
+            let op = BINOPS[self.rng.below(30) as usize].0;
+            let l = self.expr(d - 1, exotic);
+            let r = self.expr(d - 1, exotic);
+            bin(op, l, r)
+        } else if r < 72 {
+            let c = self.expr(d - 1, exotic);
+            let a = self.expr(d - 1, exotic);
+            let b = self.expr(d - 1, exotic);
+            SExp::list("tern", vec![c, a, b])
+        } else if r < 79 {
+            let o = self.expr(d - 1, exotic);
+            let i = self.expr(d - 1, exotic);
+            SExp::list("sub", vec![o, i])
+        } else if r < 86 {
+            let o = self.expr(d - 1, exotic);
+            let n = *self.rng.pick(&["m", "x", "rrr"]);
+            SExp::list("mem", vec![o, SExp::atom(n)])
+        } else if r < 94 || !exotic {
+            let f = self.expr(d - 1, exotic);
+            let n = self.rng.below(4);
+            let mut args = Vec::new();
+            for _ in 0..n {
+                args.push(self.expr(d - 1, exotic));
+            }
+            let mut targs = Vec::new();
+            if exotic && self.rng.chance(1, 4) {
+                for _ in 0..1 + self.rng.below(2) {
+                    targs.push(self.eot(d - 1));
+                }
+            }
+            SExp::list("call", vec![f, SExp::List(targs), SExp::List(args)])
+        } else if r < 97 {
+            let t = self.type_id();
+            SExp::list("cast", vec![t, self.expr(d - 1, exotic)])
+        } else if r < 99 {
+            SExp::list("sizeof", vec![self.eot(d - 1)])
+        } else {
+            let t = self.type_id();
+            let mut v = vec![t];
+            for _ in 0..self.rng.below(3) {
+                v.push(self.expr(d - 1, exotic));
+            }
+            SExp::list("binit", v)
+        }
+    }
+}
+
+pub fn run(args: &Args, out: &mut Out) {
+    if let Some(lines) = args.request_lines() {
+        let mut st = Stats::default();
+        for l in lines {
+            run_request(&l, out, &mut st);
+        }
+        out.stat(&st.json("requests"));
+        return;
+    }
+    let thorough = args.thorough();
+    // stream 1: exhaustive small trees in the `return e;` context
+    let mut st = Stats::default();
+    let depth = 3;
+    for t in exhaustive(depth, thorough) {
+        let line = format!("C09.rt\tret\t{}", t.show());
+        run_request(&line, out, &mut st);
+    }
+    out.stat(&st.json("exhaustive-depth-3"));
+    // stream 2: random trees inside the model's subset, all contexts
+    let mut g = Gen {
+        rng: Rng::new(args.seed),
+    };
+    let n = args.n.unwrap_or(if thorough { 60000 } else { 4000 });
+    let mut st = Stats::default();
+    for i in 0..n {
+        let d = 2 + (i % 5) as usize;
+        let t = g.expr(d, false);
+        let ctx = *g.rng.pick(&["ret", "ret", "ret", "arg", "idx", "init", "stmt"]);
+        let line = format!("C09.rt\t{}\t{}", ctx, t.show());
+        run_request(&line, out, &mut st);
+    }
+    out.stat(&st.json("random-core"));
+    // stream 3: random trees with exporter-only shapes
+    let mut st = Stats::default();
+    for i in 0..n / 2 {
+        let d = 2 + (i % 5) as usize;
+        let t = g.expr(d, true);
+        let ctx = *g.rng.pick(&["ret", "ret", "arg", "idx", "init", "stmt"]);
+        let line = format!("C09.rt\t{}\t{}", ctx, t.show());
+        run_request(&line, out, &mut st);
+    }
+    out.stat(&st.json("random-exotic"));
 }
